@@ -9,8 +9,12 @@ def _t(n): return open(os.path.join(_d, n)).read()
 GET = """        ensures match reg_cfg(op@) { Some(c) => r == Ok::<InfixOpConfig, Error>(c), None => r is Err },"""
 OPERATOR = [
   F('InfixOpManager::new', trust=True, spec=""),
-  F('InfixOpManager::get', trust=True, spec=GET),
-  F('InfixOpManager::exist', trust=True, spec="        ensures r == reg_infix(op@),"),
+  F('InfixOpManager::get', props=['C02', 'C03', 'C08'], spec=GET + "  // @C02,C03,C08 registry.infix_get"),
+  F('InfixOpManager::exist', props=['C02', 'C05', 'C08', 'C10'], spec="        ensures r == reg_infix(op@),  // @C02,C05,C08,C10 registry.infix_exist"),
+  F('PrefixOpManager::get', props=['C03', 'C08'], spec="        ensures match reg_prefix_h(op@) { Some(h) => r == Ok::<Arc<PrefixOpFunc>, Error>(h), None => r is Err },  // @C03,C08 registry.prefix_get"),
+  F('PrefixOpManager::exist', props=['C02', 'C05', 'C08', 'C10'], spec="        ensures r == reg_prefix(op@),  // @C02,C05,C08,C10 registry.prefix_exist"),
+  F('PostfixOpManager::get', props=['C03', 'C08'], spec="        ensures match reg_postfix_h(op@) { Some(h) => r == Ok::<Arc<PostfixOpFunc>, Error>(h), None => r is Err },  // @C03,C08 registry.postfix_get"),
+  F('PostfixOpManager::exist', props=['C02', 'C05', 'C08', 'C10'], spec="        ensures r == reg_postfix(op@),  // @C02,C05,C08,C10 registry.postfix_exist"),
   F('InfixOpManager::register', trust=True, spec="        requires inited(), 0 < precidence <= 1_000_000_000,"),
   F('InfixOpManager::get_handler', props=['C08'],
     spec="        ensures match reg_cfg(op@) { Some(c) => r == Ok::<Arc<InfixOpFunc>, Error>(c.3), None => r is Err },  // @C08 dispatch.infix_handler"),
@@ -31,18 +35,6 @@ KEYWORD = [
   F('is_not', props=['C02'], spec="    ensures r == (op@ == \"not\"@),  // @C02 keyword.not",
     ops=[Ins('entry', '', "    proof { broadcast use axiom_str_ext; }")]),
 ]
-CONTEXT = [
-  F('Context::new', trust=True, spec=""),
-  F('Context::set', trust=True, spec="        ensures final(self)@ == old(self)@.insert(name@, v),"),
-  F('Context::get', trust=True, spec="        ensures r == (if self@.dom().contains(name@) { Some(self@[name@]) } else { None::<ContextValue> }),"),
-  F('Context::value', trust=True, spec=""),
-  F('Context::set_variable', props=['C06'], spec="        ensures final(self)@ == old(self)@.insert(name@, ContextValue::Variable(value)),  // @C06 context.set_variable"),
-  F('Context::set_func', props=['C08'], spec="        ensures final(self)@ == old(self)@.insert(name@, ContextValue::Function(func)),  // @C08 context.set_func"),
-  F('Context::get_func', props=['C08'],
-    spec="""        ensures r == (if self@.dom().contains(name@) { match self@[name@] { ContextValue::Function(f) => Some(f), ContextValue::Variable(_) => None::<Arc<InnerFunction>> } } else { None::<Arc<InnerFunction>> }),  // @C08 context.get_func"""),
-  F('Context::get_variable', props=['C06'],
-    spec="""        ensures r == (if self@.dom().contains(name@) { match self@[name@] { ContextValue::Variable(v) => Some(v), ContextValue::Function(_) => None::<Value> } } else { None::<Value> }),  // @C06 context.get_variable"""),
-]
 LIB = [
   F('init', props=['C08'], spec="    ensures inited(),  // @C08 lib.init"),
   F('parse_expression', props=['C01', 'C08'],
@@ -59,13 +51,21 @@ UNIT = Unit('lb', [
     Src('error.rs'),
     Src('define.rs'),
     Src('operator.rs', fns=OPERATOR, props=['C08'],
-        keep_items=lambda kind, name: (kind == 'enum') or (kind == 'struct' and name == 'InfixOpConfig') or (kind == 'impl' and name == 'InfixOpManager'),
+        keep_items=lambda kind, name: (kind == 'enum') or (kind == 'struct' and name == 'InfixOpConfig') or (kind == 'impl' and name in ('InfixOpManager', 'PrefixOpManager', 'PostfixOpManager')),
+        regex_rules=[('rule30_lock_guard', r'self\.store\.lock\(\)\.unwrap\(\)', 'self.vx_lock()')],
         keep_fns=lambda k: k in set(s.key for s in OPERATOR),
         item_attr={'InfixOpType': '#[verifier::external_derive]', 'InfixOpAssociativity': '#[verifier::external_derive]', 'InfixOpConfig': '#[verifier::external_derive]'}),
-    Src('context.rs', fns=CONTEXT, props=['C06', 'C08'],
-        keep_items=lambda kind, name: (kind == 'enum') or (kind == 'impl' and name == 'Context'),
+    Src('function.rs', fns=[F('InnerFunctionManager::get', props=['C03', 'C08'],
+            spec="        ensures match reg_func_h(name@) { Some(h) => r == Ok::<Arc<InnerFunction>, Error>(h), None => r is Err },  // @C03,C08 registry.function_get")],
+        props=['C08'], keep_items=lambda kind, name: (kind == 'impl' and name == 'InnerFunctionManager'),
+        keep_fns=lambda k: k == 'InnerFunctionManager::get',
+        regex_rules=[('rule30_lock_guard', r'self\.store\.lock\(\)\.unwrap\(\)', 'self.vx_lock()'),
+                     ('rule17_string_from_str', r'\bString::from\((\w+)\)', r'vx_string_from(\1)')]),
+    # the context's own functions are verified in unit ev; here only the type and its view are needed (execute passes the context through)
+    Src('context.rs', props=['C06', 'C08'],
+        keep_items=lambda kind, name: (kind == 'enum'),
         item_attr={'ContextValue': '#[verifier::external_derive]'},
-        header="#[verifier::external_body] pub struct Context { x: u8 }   // rule 22: Arc<Mutex<HashMap<..>>> behind the trusted primitives new/set/get/value\n"),
+        header="#[verifier::external_body] pub struct Context { x: u8 }   // rule 22\n"),
     Ghost(_t('lb_ghost.rs'), props=['C02', 'C08'], name='lb_ghost'),
     Ghost("pub mod keyword { use super::*; use vstd::prelude::*; verus! {\n", name='kw_open'),
     Src('keyword.rs', fns=KEYWORD, props=['C08', 'C10'], keep_items=lambda kind, name: kind == 'fn'),
